@@ -110,8 +110,9 @@ Inductive case :=
 (* the run crashes (chain of (k, variant), each next crash hits the resumed run); obs_state = the
    directory at the last crash as read back by the harness; then a fresh process resumes:
    its operations, the final directory, found/done/parameters, the fetched answer.
-   acked: the first crash is after StartSearch was acknowledged *)
-| CCrash (w : world) (chain : list (nat * N)) (acked : bool) (obs_state : dir)
+   acked: the first crash is after StartSearch was acknowledged; live: the fractions alive when the
+   last resume ran (start-time numbers, larger numbers = fractions that appeared later) *)
+| CCrash (w : world) (chain : list (nat * N)) (acked : bool) (live : list N) (obs_state : dir)
          (ops : list op) (final : dir) (found done reqok : bool) (res : qpr).
 
 Definition per_list (w : world) (s : dir) := stored_qprs (w_per w) s.
@@ -127,9 +128,9 @@ Definition case_agrees (c : case) : bool :=
       && Bool.eqb fnd true && Bool.eqb dn true
       && qpr_eqb (fetch_dir (w_hi w) (w_rev w) (w_per w) fin) res
       && qpr_eqb (sync_search (w_naggs w) (w_limit w) (w_hi w) (w_rev w) (map snd (w_per w))) (w_sync w)
-  | CCrash w chain acked obs ops final fnd dn reqok res =>
+  | CCrash w chain acked live obs ops final fnd dn reqok res =>
       let s := chain_state (w_fs w) [] (start_ops (w_fs w)) chain in
-      let rops := resume_ops s (w_fs w) in
+      let rops := fst (resume_live s live (w_fs w)) in
       let fin := apply_ops s rops in
       dir_eqb s obs
       && list_eqb op_eqb rops ops
@@ -150,7 +151,7 @@ Definition case_spec_ok (c : case) : bool :=
       && fnd && dn && reqok
       && nl_eqb (sortN (published_qprs ops)) (sortN (w_fs w))
       && same_answer (w_limit w) res (w_sync w)
-  | CCrash w chain acked obs ops final fnd dn reqok res =>
+  | CCrash w chain acked live obs ops final fnd dn reqok res =>
       let pub := match nm_find (fkey FInfo) obs with Some (CInfo _) => true | _ => false end in
       (* an acknowledged request is on disk, complete *)
       (negb acked || pub)
